@@ -255,7 +255,7 @@ bool pow_exact(V base, V exp, V& out)
 {
     V r = 1;
     for (V i = 0; i < exp; ++i) {
-        r *= base;
+        if (__builtin_mul_overflow(r, base, &r)) { return false; } // (2^64)^2 does not fit 128 bits either
         if (!fits<T>(r)) { return false; }
     }
     out = r;
@@ -376,6 +376,9 @@ void add_jobs(mc::Main& m)
                     want = V(a) + (V(b) - V(a)) / 2;
                 });
             });
+            // gcd: the complete square for u16 only (the signed variant differs by the |.| step,
+            // which 2^16 x grid u grid x 2^16 covers); about 1000 CPU seconds
+            if (std::is_signed_v<T>) { continue; }
             m.job(cat("full16-gcd-", t, "-", k), {"thorough"}, [k](mc::Reporter& r) {
                 Ctx c(r);
                 Set const rows = slice16<T>(k, 16);
@@ -399,8 +402,13 @@ template <typename M, typename N>
 void mixed_pair(Ctx& c)
 {
     if constexpr (!std::is_same_v<M, N>) {
-        // quick: grid x grid (8-bit types: every value); thorough: 2^16 x grid / 2^16 x lattice as well
-        gcd_lcm<M, N>(c, pair_space<M, N>(c.r.thorough() && wide16_default()));
+        // quick: grid x grid (8-bit types: every value); thorough: the 2^16 axis as well when both
+        // types have at most 16 bits (2^8 x 2^16 complete, 2^16 x grid u grid x 2^16)
+        bool wide = c.r.thorough() && wide16_default() && sizeof(M) <= 2 && sizeof(N) <= 2;
+    #if defined(MC_FLAVOUR_O2)
+        wide = false;
+    #endif
+        gcd_lcm<M, N>(c, pair_space<M, N>(wide));
     }
 }
 
